@@ -149,6 +149,8 @@ def emptyShape : List SCall := [.store, .setBox]
 def tooLongShape : List SCall := [.cb, .store, .setBox]
 /-- `channelState.handleTooLong` beyond the difference limit: only the callback. -/
 def cbOnlyShape : List SCall := [.cb]
+/-- `internalState.handleChannel` on first contact with a channel: the initial `SetChannelPts`. -/
+def storeOnlyShape : List SCall := [.store]
 
 /-- Well-formedness of an op in box state `b`: a push is a log entry, or a count-0 marker at a
 positive position (an affected result that covers no position); a difference branch has one of the
@@ -164,7 +166,8 @@ def wfOp (log : List Entry) (mk : Nat → Bool) (b : Box) : SOp → Bool
         log.all fun e => !(decide (b.state < e.pos) && decide (e.pos ≤ x)) || exempt mk e || decide (e ∈ direct))
     || (decide (calls = emptyShape) &&
         log.all fun e => !(decide (b.state < e.pos) && decide (e.pos ≤ x)) || exempt mk e)
-    || decide (calls = tooLongShape) || decide (calls = cbOnlyShape))
+    || decide (calls = tooLongShape) || decide (calls = cbOnlyShape)
+    || (decide (calls = storeOnlyShape) && decide (x ≤ b.state)))
 
 def wfRun (c : ACfg) (log : List Entry) (b : Box) : List SOp → Bool
   | [] => true
